@@ -232,6 +232,49 @@ func properties() map[string]*PropertyDef {
 		LevelNote:   "assumed: sync.Mutex mutual exclusion/happens-before, sync/atomic atomicity; see assumptions for what is not decided",
 		Technique:   "contract-based deductive verification (govc): guarded-by obligations + monitor invariants, WP over go/ssa, z3/cvc5",
 	})
+	ps = append(ps, &PropertyDef{
+		ID:       "C04",
+		Patterns: []string{"./netutil"},
+		Funcs:    []string{"netutil.fromHexByte", "netutil.asciiToLower", "netutil.ipv6FromReversed", "netutil.ipv4FromReversed", "netutil.IPFromReversedAddr"},
+		Kinds:    map[string]bool{"ensures": true, "invariant": true, "requires": true, "lemma": true, "assert": true},
+		NeedsClauses: map[string][]string{
+			"netutil.IPFromReversedAddr": {"typed_error", "valid_name", "v6_exact", "v4_suffix"},
+			"netutil.ipv6FromReversed":   {"accepts", "address"}, "netutil.ipv4FromReversed": {"accepts", "address"},
+			"netutil.asciiToLower": {"lowered"}, "netutil.fromHexByte": {"value"},
+		},
+		Assumptions: []string{
+			"PARTIAL CLAIM. Decided (decoder soundness): whatever IPFromReversedAddr accepts is a valid domain name; for an IPv6 result the text (minus one trailing dot, ASCII-case-insensitively) is exactly the 72-byte nibble name of the returned address; for an IPv4 result it ends in .in-addr.arpa and its first part is accepted by netip.ParseAddr as an IPv4 address whose bytes are reversed (ipv4FromReversed against the assumed dotted-quad contract of ParseAddr); every rejection is an *AddrError; the lower-casing never maps non-ASCII bytes to ASCII letters",
+			"NOT decided: IPToReversedAddr producing the canonical name (strings.Builder content through closures, decimal formatting) and therefore the round trip / completeness direction; the IPv4 octets of the accepted text in terms of the original-case text",
+			"assumed: netip.ParseAddr accepts a dotted quad iff it is four canonical decimal octets (specs/netip.spec), idna.ToASCII deterministic, strings.HasSuffix/TrimSuffix",
+		},
+		Explanation: "postconditions written from RFC 3596 section 2.5 on the real decoder; the case-insensitive statement on the caller's text is bridged to the lower-cased copy through the proved contract of asciiToLower",
+		LevelText:   "proof (partial): soundness of the ARPA address decoder for all strings (IPv6 exactly, IPv4 through the assumed ParseAddr contract); the encoder and the round trip are outside the claim",
+		LevelNote:   "see assumptions; trusted: go/ssa lowering, govc encoding, solvers",
+		Technique:   "contract-based deductive verification (govc): postconditions from the RFC text, loop invariants, WP over go/ssa, z3/cvc5",
+	})
+	ps = append(ps, &PropertyDef{
+		ID:       "C05",
+		Patterns: []string{"./netutil"},
+		Funcs: []string{"netutil.fromHexByte", "netutil.asciiToLower", "netutil.ipv6NetFromReversed", "netutil.ipv6FromReversed", "netutil.subnetFromReversedV6",
+			"netutil.indexFirstV6Label", "netutil.ipv4NetFromReversed", "netutil.ipv4FromReversed"},
+		Lemmas: []string{"decValSmall", "dotsInStable", "dotsInNonNeg", "dotsInStep"},
+		Kinds:  map[string]bool{"ensures": true, "invariant": true, "requires": true, "lemma": true, "assert": true},
+		NeedsClauses: map[string][]string{
+			"netutil.ipv6NetFromReversed":  {"accepts", "bits", "address"},
+			"netutil.subnetFromReversedV6": {"accepts", "bits", "address"},
+			"netutil.indexFirstV6Label":    {"run", "at_most_32", "longest"},
+			"netutil.ipv4NetFromReversed":  {"check_at_store/l/canonical_octet", "check_at_store/l/octet_value", "bits"},
+		},
+		Assumptions: []string{
+			"PARTIAL CLAIM. Decided: the IPv6 side completely for the lower-cased text - ipv6NetFromReversed / subnetFromReversedV6 accept exactly k <= 32 one-hex-digit labels before ip6.arpa and return the prefix of 4k bits with the nibbles reversed and zero host bits; indexFirstV6Label returns the start of the longest label-aligned run of hex labels (at most 32). On the IPv4 side every label that ipv4NetFromReversed accepts is a canonical decimal octet without leading zeros and the stored byte is its value; the number of bits is a multiple of 8 up to 32; the four-label form goes through ipv4FromReversed",
+			"NOT decided: the iff-statement at the level of PrefixFromReversedAddr / ExtractReversedAddr (composition of domain validation, lower-casing, suffix dispatch and label counting), the position/value correspondence of IPv4 labels (the positional invariant did not discharge robustly and was withdrawn), indexFirstV4Label's longest-suffix property",
+			"assumed: strconv.ParseUint(s, 10, 8) accepts exactly non-empty digit strings below 256 (with the stated consequences), strings.LastIndexByte / HasSuffix, netip.PrefixFrom / AddrFrom16 / AddrFrom4",
+		},
+		Explanation: "right-to-left scanner invariants over absolute positions; bit operations on nibbles with exact 8-bit semantics; a per-label check at every accepted label of the IPv4 scanner",
+		LevelText:   "proof (partial): IPv6 reverse-network decoding and extraction index for all strings; canonical-octet discipline of the IPv4 scanner; top-level iff not decided",
+		LevelNote:   "see assumptions; trusted: go/ssa lowering, govc encoding, solvers",
+		Technique:   "contract-based deductive verification (govc): loop invariants on real scanners, lemma calls, WP over go/ssa, z3/cvc5",
+	})
 	out := map[string]*PropertyDef{}
 	for _, p := range ps {
 		out[p.ID] = p
